@@ -124,6 +124,7 @@ class Universe:
                     self.PARAM_DOM.setdefault((type(a), i), []).append(p)
         self.ARITY = {cls: len(v[0].parameters) for cls, v in self.BYCLS.items() if isinstance(v[0], ParametrizedAttribute)}
         self.INTS = [-1, 0, 1, 2, 3, 8, 16, 32, 64]
+        self.OPAQUE = {b.DenseIntOrFPElementsAttr, b.DenseArrayBase}
         self.ParametrizedAttribute = ParametrizedAttribute
 
     def instances(self, cls):
@@ -142,9 +143,10 @@ def U():
 
 # =========================================================================== generator of spec trees
 class Gen:
-    def __init__(self, rng, tvars=None):
+    def __init__(self, rng, tvars=None, names=(ATTR_VARS, RANGE_VARS, INT_VARS)):
         self.rng = rng
         self.u = U()
+        self.attr_vars, self.range_vars, self.int_vars = names
         self.vars = {}          # (ns, name) -> inner tree (one definition per name)
         self.busy = set()
         self.tvars = tvars      # None or {"attr": [(typevar, bound_tree)], "int": [(typevar, bound_int_tree)]}
@@ -158,7 +160,7 @@ class Gen:
             tv, bound = rng.choice(self.tvars["int"])
             return ("itvar", tv, bound)
         if d > 0 and r < 0.30:
-            name = rng.choice(INT_VARS)
+            name = rng.choice(self.int_vars)
             return self._var("ivar", "i", name, lambda: self.g_int(d - 1, ints))
         k = rng.randrange(6)
         n = rng.choice(ints)
@@ -191,7 +193,7 @@ class Gen:
         rng = self.rng
         r = rng.random()
         if d > 0 and r < 0.15:
-            name = rng.choice(RANGE_VARS)
+            name = rng.choice(self.range_vars)
             return self._var("rangevar", "r", name, lambda: self.g_range(d - 1, elems))
         if d > 0 and r < 0.38:
             return ("rangelen", self.g_range(d - 1, elems), self.g_int(1, [0, 1, 2, 3]))
@@ -226,7 +228,10 @@ class Gen:
     def g_param(self, d, dom, cls=None):
         rng, u = self.rng, self.u
         if cls is None:
-            classes = sorted({type(a) for a in dom if u.ARITY.get(type(a), 0) >= 1}, key=lambda c: c.__name__)
+            # dense attributes are never taken apart: an equality on their byte payload describes an attribute whose
+            # payload does not match its type (accepted by `new`, but it cannot even be printed in the error message)
+            classes = sorted({type(a) for a in dom if u.ARITY.get(type(a), 0) >= 1 and type(a) not in u.OPAQUE},
+                             key=lambda c: c.__name__)
             if not classes:
                 return self.leaf(dom)
             cls = rng.choice(classes)
@@ -238,7 +243,7 @@ class Gen:
     def g_anyof(self, d, dom):
         rng, u = self.rng, self.u
         r = rng.random()
-        pcls = sorted({type(a) for a in dom if u.ARITY.get(type(a), 0) >= 1}, key=lambda c: c.__name__)
+        pcls = sorted({type(a) for a in dom if u.ARITY.get(type(a), 0) >= 1 and type(a) not in u.OPAQUE}, key=lambda c: c.__name__)
         if r < 0.14:                                 # equalities / sets: relax merges them into one set
             alts = [self.leaf_eqset(dom) for _ in range(rng.randint(2, 4))]
         elif r < 0.26 and pcls:                      # Base(cls) with Param(cls, ..): relaxes to Base
@@ -300,16 +305,16 @@ class Gen:
                 ints = [a.data for a in dom if isinstance(a, u.b.IntAttr)]
                 arrs = [a for a in dom if isinstance(a, u.b.ArrayAttr)]
                 if ints and (not arrs or rng.random() < 0.5):
-                    kids[0] = ("intattr", self._var("ivar", "i", rng.choice(INT_VARS), lambda: self.g_int(0, ints)))
+                    kids[0] = ("intattr", self._var("ivar", "i", rng.choice(self.int_vars), lambda: self.g_int(0, ints)))
                 elif arrs:
                     elems = [e for a in arrs for e in a.data] or u.POOL
-                    kids[0] = ("array", self._var("rangevar", "r", rng.choice(RANGE_VARS), lambda: ("rangeof", self.leaf(elems))))
+                    kids[0] = ("array", self._var("rangevar", "r", rng.choice(self.range_vars), lambda: ("rangeof", self.leaf(elems))))
                 rng.shuffle(kids)
             return ("allof", tuple(kids))
         if r < 0.74:
             return self.g_param(d, dom)
         if r < 0.86:
-            name = rng.choice(ATTR_VARS)
+            name = rng.choice(self.attr_vars)
             return self._var("var", "a", name, lambda: self.g_attr(d - 1, dom))
         if r < 0.89:
             return ("msg", self.g_attr(d - 1, dom), "xv message")
@@ -1241,8 +1246,9 @@ def case_tree(mon, seed, idx, tier, want_tv=False):
                 mon.nt.add(shash(("tree", R.tree_show(t))))
         if want_tv and tags & {"tvar", "itvar"}:
             # substitute the type variables: real mapping_type_vars vs substitution on the spec tree
-            gen2 = Gen(rng, None)
-            gen2.vars = gen.vars
+            # the substituted constraints use their own variable names: a name shared with `t` would get two different
+            # definitions (one with the type variable substituted, one without), which the assumptions exclude
+            gen2 = Gen(rng, None, names=(["V", "W"], ["P"], ["K"]))
             mapping_trees = {}
             for tv, bound in tvars["attr"]:
                 mapping_trees[tv] = gen2.g_attr(rng.choice([0, 1, 1, 2]), u.POOL)
@@ -1544,7 +1550,7 @@ def plan(tier, seed):
     if tier == "quick":
         nt, ct, ntv, ctv, nh, ch = 24, 175, 6, 150, 6, 350
     else:
-        nt, ct, ntv, ctv, nh, ch = 64, 2500, 16, 1200, 16, 2500
+        nt, ct, ntv, ctv, nh, ch = 64, 5000, 16, 2500, 16, 5000
     for i in range(nt):
         jobs.append({"kind": "tree", "seed": seed * 100003 + i, "cases": ct, "tier": tier})
     for i in range(ntv):
